@@ -581,86 +581,82 @@ HANDLE_ACCESSORS = ('FacetHandle::facet_index', 'RidgeHandle::', 'TriangleHandle
 
 
 def _idxguard(ctx, cfg, prog, mod):
-    """A slice index that derives from a caller-supplied handle (FacetHandle::facet_index ...) is a panic site
-    for an out-of-range handle unless a comparison on that value dominates the indexing."""
-    import valueflow
-    ctx.rule('IDXGUARD', 'slice indexing with an index derived from a caller-supplied handle is dominated by a range comparison on it')
+    """A slice / vector index that *is* the value of a caller-supplied handle accessor (FacetHandle::facet_index and
+    its integer conversions) is a panic site for an out-of-range handle unless a range test on that value dominates
+    the use.  Uses: MIR bounds-check asserts, and calls of std / smallvec methods that panic on a bad index."""
+    ctx.rule('IDXGUARD', 'indexing (slice index, Vec/SmallVec remove / insert / swap_remove / split_off / swap) with a '
+                         'caller-handle value is dominated by a range test on it')
     n = 0
     for q, b in sorted(prog.bodies.items()):
         if '::tests::' in q or not b.file.startswith('src/'):
             continue
-        al = None
-        dom = None
-        for blk in b.blocks:
-            t = blk.term
-            if blk.cleanup or t.k != 'assert' or t.raw.get('m') != 'BoundsCheck':
-                continue
-            mo = t.raw.get('mo', [])
-            if len(mo) < 2 or mo[1][0] == 'k':
-                continue
-            al = al or mod.aliases(q)
-            leaves = valueflow.deep_sources(prog, mod, b, mo[1][1][0], depth=1)
-            acc = [l for l in leaves if l[0] == 'call' and l[3] == q and
-                   any(a in (l[1].resolved or l[1].callee or '') for a in HANDLE_ACCESSORS)]
-            if not acc:
-                continue
-            # values carrying the handle index: destinations of the accessor calls and their copies / casts
-            roots = set()
-            for l in acc:
-                if l[1].dest is not None and l[1].dest.is_local():
-                    roots.add(l[1].dest.local)
-            carried = set(roots)
-            changed = True
-            while changed:
-                changed = False
-                for bb2 in b.blocks:
-                    for s_ in bb2.stmts:
-                        if s_.kind == 'A' and s_.place.is_local() and s_.place.local not in carried and s_.rv.k in ('use', 'cast') and \
-                                s_.rv.ops and s_.rv.ops[0].place is not None and s_.rv.ops[0].place.local in carried:
-                            carried.add(s_.place.local)
-                            changed = True
-                    t2 = bb2.term
-                    if t2.k == 'call' and t2.dest is not None and t2.dest.is_local() and t2.dest.local not in carried and \
-                            (t2.callee or '').rsplit('::', 1)[-1] in ('from', 'into', 'try_from', 'unwrap', 'branch') and \
-                            any(o.place is not None and o.place.local in carried for o in t2.args):
-                        carried.add(t2.dest.local)
-                        changed = True
-            # the index must *be* the handle's value (copies / integer conversions), not merely depend on it
-            idx_local = mo[1][1][0]
-            idx_def = b.single_def(idx_local)
-            idx_srcs = {idx_local}
-            if idx_def is not None and idx_def[1] != 'term' and idx_def[2].rv.k in ('use', 'cast') and idx_def[2].rv.ops and \
-                    idx_def[2].rv.ops[0].place is not None:
-                idx_srcs.add(idx_def[2].rv.ops[0].place.local)
-            if not (idx_srcs & carried):
-                continue
-            n += 1
-            # comparison blocks on a carried value
-            cmp_locals = set()
+        roots = set()
+        for bb, t in b.calls():
+            nm = t.resolved or t.callee or ''
+            if any(a_ in nm for a_ in HANDLE_ACCESSORS) and t.dest is not None and t.dest.is_local():
+                roots.add(t.dest.local)
+        if not roots:
+            continue
+        carried = set(roots)
+        changed = True
+        while changed:
+            changed = False
             for bb2 in b.blocks:
                 for s_ in bb2.stmts:
-                    if s_.kind == 'A' and s_.rv.k == 'bin' and s_.rv.raw.get('op') in ('Lt', 'Le', 'Gt', 'Ge') and s_.place.is_local() and \
-                            any(o.place is not None and o.place.is_local() and o.place.local in carried for o in s_.rv.ops):
-                        cmp_locals.add(s_.place.local)
-            guards = [bb2.idx for bb2 in b.blocks if bb2.term.k == 'switch' and bb2.term.discr.place is not None and
-                      bb2.term.discr.place.is_local() and bb2.term.discr.place.local in cmp_locals]
-            ok = any(b.dominates(g, blk.idx) for g in guards)
-            if not ok:
-                # `coll.get(i)` answered Some on every path to the indexing: i is in range of a collection of the
-                # same arity (neighbours / vertices of one cell)
-                some_edges = set()
-                for gb, gt in b.calls():
-                    if (gt.callee or gt.resolved or '').rsplit('::', 1)[-1] in ('get', 'get_mut') and \
-                            any(o.place is not None and o.place.is_local() and o.place.local in carried for o in gt.args[1:]):
-                        some_edges |= flow.call_flow(b, gb).ok_edges
-                if some_edges and blk.idx not in flow.reach_edges(b, [0], avoid_edges=some_edges):
-                    ok = True
-            ctx.ob('IDXGUARD', '%s|L%d' % (b.root or q, sum(1 for o in ctx.obligations if o['rule'] == 'IDXGUARD' and o['cfg'] == cfg and o['key'].startswith('IDXGUARD|%s|' % (b.root or q)))),
-                   cfg, ok, 'slice index derived from %s is %s by a range comparison' % (
-                       sorted({(l[1].resolved or l[1].callee or '').rsplit('::', 2)[-2] + '::' + (l[1].resolved or l[1].callee or '').rsplit('::', 1)[-1] for l in acc}),
-                       'dominated' if ok else 'NOT dominated') + ('' if ok else ': an out-of-range handle panics here'),
-                   site='%s:%d' % (b.file, t.line))
-    ctx.floor('slice indexings with a handle-derived index', 1, n, cfg)
+                    if s_.kind == 'A' and s_.place.is_local() and s_.place.local not in carried and s_.rv.k in ('use', 'cast') and \
+                            s_.rv.ops and s_.rv.ops[0].place is not None and s_.rv.ops[0].place.is_local() and \
+                            s_.rv.ops[0].place.local in carried:
+                        carried.add(s_.place.local)
+                        changed = True
+                t2 = bb2.term
+                if t2.k == 'call' and t2.dest is not None and t2.dest.is_local() and t2.dest.local not in carried and \
+                        (t2.callee or '').rsplit('::', 1)[-1] in ('from', 'into', 'try_from', 'unwrap', 'branch') and \
+                        any(o.place is not None and o.place.is_local() and o.place.local in carried for o in t2.args):
+                    carried.add(t2.dest.local)
+                    changed = True
+        uses = []      # (block, line, what)
+        for blk in b.blocks:
+            if blk.cleanup:
+                continue
+            t = blk.term
+            if t.k == 'assert' and t.raw.get('m') == 'BoundsCheck':
+                mo = t.raw.get('mo', [])
+                if len(mo) >= 2 and mo[1][0] != 'k' and not mo[1][1][1] and mo[1][1][0] in carried:
+                    uses.append((blk.idx, t.line, 'slice index'))
+            if t.k == 'call':
+                last = (t.callee or t.resolved or '').rsplit('::', 1)[-1]
+                st = (t.func.const.get('selfty') or '') if t.func is not None and t.func.kind == 'k' else ''
+                recv = b.locals[t.args[0].place.local] if t.args and t.args[0].place is not None else ''
+                if last in PANICKY_INDEX_METHODS and any(k in (st + ' ' + recv + ' ' + (t.callee or '')) for k in ('Vec', 'SmallVec', 'VecDeque', '[', 'slice')) and \
+                        any(o.place is not None and o.place.is_local() and o.place.local in carried for o in t.args[1:]):
+                    uses.append((blk.idx, t.line, '%s()' % last))
+        if not uses:
+            continue
+        cmp_locals = set()
+        for bb2 in b.blocks:
+            for s_ in bb2.stmts:
+                if s_.kind == 'A' and s_.rv.k == 'bin' and s_.rv.raw.get('op') in ('Lt', 'Le', 'Gt', 'Ge') and s_.place.is_local() and \
+                        any(o.place is not None and o.place.is_local() and o.place.local in carried for o in s_.rv.ops):
+                    cmp_locals.add(s_.place.local)
+        guards = [bb2.idx for bb2 in b.blocks if bb2.term.k == 'switch' and bb2.term.discr.place is not None and
+                  bb2.term.discr.place.is_local() and bb2.term.discr.place.local in cmp_locals]
+        some_edges = set()
+        for gb, gt in b.calls():
+            if (gt.callee or gt.resolved or '').rsplit('::', 1)[-1] in ('get', 'get_mut') and \
+                    any(o.place is not None and o.place.is_local() and o.place.local in carried for o in gt.args[1:]):
+                some_edges |= flow.call_flow(b, gb).ok_edges
+        safe_reach = flow.reach_edges(b, [0], avoid_edges=some_edges) if some_edges else None
+        for i, (ub, line, what) in enumerate(uses):
+            n += 1
+            ok = any(b.dominates(g, ub) for g in guards) or (safe_reach is not None and ub not in safe_reach)
+            ctx.ob('IDXGUARD', '%s|use%d' % (b.root or q, i), cfg, ok,
+                   '%s with a caller-handle value is %s by a range test' % (what, 'dominated' if ok else 'NOT dominated') +
+                   ('' if ok else ': an out-of-range handle panics here'), site='%s:%d' % (b.file, line))
+    ctx.floor('indexing uses of a caller-handle value', 1, n, cfg)
+
+
+PANICKY_INDEX_METHODS = ('remove', 'swap_remove', 'insert', 'split_off', 'swap', 'index', 'index_mut', 'drain', 'split_at',
+                         'split_at_mut', 'copy_within', 'rotate_left', 'rotate_right', 'truncate_front')
 
 
 # ------------------------------------------------------------------------------------------ CALLBAN
